@@ -597,8 +597,14 @@ pub fn replay_path_with(w: &World, r: usize, cfg: &L1Cfg, path: &[String], check
 /// write errors and restarts can be chained five or six steps deep.
 pub fn persistence_alphabet(w: &World, r: usize, cfg: &L1Cfg) -> Vec<(String, Input)> {
     let narrow = L1Cfg { narrow: true, full: false, max_view: cfg.max_view, crashes: cfg.crashes, flood: false, max_states: cfg.max_states, deadline: cfg.deadline, seed: cfg.seed };
-    alphabet(w, r, &narrow)
+    let mut a: Vec<(String, Input)> = alphabet(w, r, &narrow)
         .into_iter()
         .filter(|(d, _)| (d.starts_with("proposal[") && d.contains("payload X") && d.ends_with("from the leader")) || d.starts_with("new-view[") && d.contains("from the leader") || d == "view timer fires")
-        .collect()
+        .collect();
+    // an equivocating leader: for every proposal with payload X also the one with payload Y for the same
+    // justification (a replica that forgot its vote across a restart would vote for both)
+    let wide = L1Cfg { narrow: true, full: true, max_view: cfg.max_view, crashes: cfg.crashes, flood: false, max_states: cfg.max_states, deadline: cfg.deadline, seed: cfg.seed };
+    let twins: Vec<String> = a.iter().filter(|(d, _)| d.starts_with("proposal[")).map(|(d, _)| d.replace("payload X", "payload Y")).collect();
+    a.extend(alphabet(w, r, &wide).into_iter().filter(|(d, _)| twins.contains(d)));
+    a
 }
